@@ -171,6 +171,8 @@ pub fn run_c02(ctx: &Ctx) -> (&'static str, Map<String, Value>) {
     ctx.assume("LMS type code 1 (4-leaf test height, hook H-a) is treated as known on both sides; all other type codes follow RFC 8554 for the selected hash (type codes are hash-independent in this library)");
     ctx.assume("message / seed bytes come from VERIF_SEED; every position, field and length is enumerated, byte values in bulk hash fields are covered by bit flips (quick: one bit per 16 bytes of bulk fields, all bits of header fields; thorough: all bits)");
     let mut extra = Map::new();
+    let (mc, md) = crate::props_msglen::msglen_sweep(ctx);
+    extra.insert("message_length_sweep".into(), json!({"cases": mc, "rule": md}));
     extra.insert("per_base".into(), json!(budget_note));
     ("model_checking", coverage_s2(ctx, &st, &bases, extra))
 }
@@ -265,6 +267,8 @@ pub fn run_c06(ctx: &Ctx) -> (&'static str, Map<String, Value>) {
     ctx.assume("non-termination is observed by a watchdog: an evaluation that does not return within 30 s is reported as its own violation class (the run is then aborted)");
     ctx.assume("totality is observed as: every call returns Ok or Err under catch_unwind; aborts (stack overflow, allocation failure) would terminate the harness and be reported as an engine crash, none is possible without recursion/allocation in the verifier");
     let mut extra = Map::new();
+    let (mc, md) = crate::props_msglen::msglen_sweep(ctx);
+    extra.insert("message_length_sweep".into(), json!({"cases": mc, "rule": md}));
     extra.insert("constructor_lengths_checked".into(), json!(ctor_cases));
     ("model_checking", coverage_s2(ctx, &st, &bases, extra))
 }
